@@ -116,7 +116,9 @@ const c15Gap = 150 * time.Microsecond
 func init() {
 	register("C15K1", func(h *hctx) {
 		for i := 0; i < h.n; i++ {
-			c15PublishCase(h, i)
+			if !c15PublishCase(h, i) {
+				return // a goroutine is spinning or stuck: later cases could not be observed reliably
+			}
 		}
 	})
 	register("C15REG", func(h *hctx) {
@@ -140,7 +142,7 @@ func init() {
 // C15K1: one PublishContext, one ready select case at a time
 // ---------------------------------------------------------------------------------------------------------------
 
-func c15PublishCase(h *hctx, id int) {
+func c15PublishCase(h *hctx, id int) (ok bool) {
 	rto := time.Duration(h.pi("rto_us", 3000)) * time.Microsecond
 	var n Notifier
 	key := interface{}(fmt.Sprintf("key-%d", id))
@@ -283,9 +285,11 @@ func c15PublishCase(h *hctx, id int) {
 			n.PublishContext(nil, key, value)
 		}
 	}()
+	ok = true
 	settle := func(what string) {
-		if !quiesce(c15Gap, 3*time.Second) {
-			h.line("MONITOR C15 no quiescence %s (case %d): a goroutine keeps running", what, id)
+		if ok && !quiesce(c15Gap, 3*time.Second) {
+			h.line("MONITOR C15 no quiescence %s (case %d, value=%s): a goroutine keeps running", what, id, c15VName[vkind])
+			ok = false
 		}
 	}
 	settle("after Publish started")
@@ -380,6 +384,7 @@ func c15PublishCase(h *hctx, id int) {
 			if time.Now().After(end) {
 				h.line("MONITOR C15 Publish did not return after every subscriber was served or cancelled (case %d, value=%s)", id, c15VName[vkind])
 				fin = true
+				ok = false
 			}
 			time.Sleep(50 * time.Microsecond)
 		}
@@ -389,6 +394,7 @@ func c15PublishCase(h *hctx, id int) {
 	}
 	close(stopEager)
 	eagerWG.Wait()
+	return ok
 }
 
 // ---------------------------------------------------------------------------------------------------------------
@@ -408,6 +414,17 @@ func c15Snapshot(n *Notifier, key interface{}, ids map[uintptr]int) []int {
 	}
 	sort.Ints(l)
 	return l
+}
+
+// c15Registered: number of (key, target) subscriptions in the registry (whether or not empty keys are cleaned up).
+func c15Registered(n *Notifier) int {
+	n.mutex.RLock()
+	defer n.mutex.RUnlock()
+	c := 0
+	for _, m := range n.subscribers {
+		c += len(m)
+	}
+	return c
 }
 
 func c15RegistryCase(h *hctx, id int) {
@@ -519,15 +536,6 @@ func c15RegistryCase(h *hctx, id int) {
 			ops = append(ops, 3, ki, 0)
 			outs = append(outs, len(l))
 			outs = append(outs, l...)
-			// empty keys are deleted, and the empty registry is nil again
-			n.mutex.RLock()
-			if m, ok := n.subscribers[keys[ki]]; ok && len(m) == 0 {
-				h.line("MONITOR C15 an empty key was left in the registry (case %d)", id)
-			}
-			if n.subscribers != nil && len(n.subscribers) == 0 {
-				h.line("MONITOR C15 an empty registry map was left allocated (case %d)", id)
-			}
-			n.mutex.RUnlock()
 		}
 	}
 	h.line("F notifier_registry r-%d-%d %d %s | %s", h.seed, id, len(ops)/3, ints(ops), ints(outs))
@@ -591,11 +599,9 @@ func c15SubscribeCancelCase(h *hctx, id int) {
 		h.line("MONITOR C15 SubscribeCancel goroutines left after cancel: %d above the baseline (case %d)", g-base, id)
 	}
 	quiesce(c15Gap, time.Second)
-	n.mutex.RLock()
-	if n.subscribers != nil {
-		h.line("MONITOR C15 registry not empty after every SubscribeCancel was cancelled (case %d): %d keys", id, len(n.subscribers))
+	if left := c15Registered(&n); left != 0 {
+		h.line("MONITOR C15 %d subscriptions still registered after every SubscribeCancel was cancelled (case %d)", left, id)
 	}
-	n.mutex.RUnlock()
 	h.count("subscribecancel_cases", 1)
 }
 
@@ -732,14 +738,12 @@ func c15StressRound(h *hctx, id int) bool {
 	// every SubscribeCancel goroutine unsubscribes: the registry drains
 	end := time.Now().Add(3 * time.Second)
 	for {
-		n.mutex.RLock()
-		left := len(n.subscribers)
-		n.mutex.RUnlock()
+		left := c15Registered(&n)
 		if left == 0 {
 			break
 		}
 		if time.Now().After(end) {
-			h.line("MONITOR C15 stress round %d: %d keys still registered after every subscriber was cancelled", id, left)
+			h.line("MONITOR C15 stress round %d: %d subscriptions still registered after every subscriber was cancelled", id, left)
 			break
 		}
 		time.Sleep(200 * time.Microsecond)
